@@ -7,7 +7,7 @@ RecordingCheck). Every call of the documented protocol is appended to LOG
 VERIF_CALL_LOG).
 
 Cell texts carry the raw row number: "<value>.<row>", a cell the value hook
-refuses is "r<value>.<row>".
+refuses is "r<value>.<row>" (or "9<value>.<row>" under a CID that allows digits only).
 """
 import json
 import os
@@ -39,7 +39,7 @@ class RecordingFieldFormat(fields.AbstractFieldFormat):
 
     def validated_value(self, value):
         _log(["value", self.index, _row_of(value)])
-        if value.startswith("r"):
+        if value.startswith("r") or value.startswith("9"):
             raise errors.FieldValueError("recording field %d refuses %r" % (self.index, value))
         return value
 
